@@ -264,7 +264,12 @@ theorem specFormProp_encodeField (fields : List (Str × List Str)) (k : Str) (p 
     case object => simp [hty] at henc
     case array =>
       simp only [hty] at henc
-      obtain ⟨it, t, vs, ts0, hit, hitt, _, rfl, hne, htys, hshow, hdel⟩ := henc
+      obtain ⟨it, t, vs, ts0, hit, hitt, _, rfl, hne, htys, hshow, hnemp, hdel⟩ := henc
+      have hany : ts0.any (fun x => x.isEmpty) = false := by
+        apply Bool.eq_false_iff.mpr
+        intro h
+        obtain ⟨x, hx, hxe⟩ := List.any_eq_true.mp h
+        exact hnemp x hx (List.isEmpty_iff.mp hxe)
       have hlen := showAll_length vs ts0 hshow
       have hts0 : ts0 ≠ [] := by
         intro h0; subst h0; cases vs with
@@ -279,13 +284,13 @@ theorem specFormProp_encodeField (fields : List (Str × List Str)) (k : Str) (p 
         subst hf
         cases ts0 with
         | nil => exact absurd rfl hts0
-        | cons v0 rest => simp [arrayRaw, hex, hitem, hdec]
+        | cons v0 rest => simp [arrayRaw, hex, hitem, hdec, hany]
       | false =>
         rcases hdel with hd | ⟨d, hd, hfree⟩
         · rw [hex] at hd; cases hd
         · simp only [hex, Bool.false_eq_true, if_false, hd, Option.some.injEq] at hf
           subst hf
-          simp [arrayRaw, hex, hd, hitem, splitOn_joinWith d ts0 hts0 hfree, hdec]
+          simp [arrayRaw, hex, hd, hitem, splitOn_joinWith d ts0 hts0 hfree, hdec, hany]
     all_goals
       simp only [hty] at henc
       obtain ⟨hhas, hne⟩ := henc
@@ -366,7 +371,7 @@ theorem encodeField_of_encodable (p : RS) (e : Option Enc) (v : V) (h : FormEnco
     case object => simp [hty] at h
     case array =>
       simp only [hty] at h
-      obtain ⟨it, t, vs, ts0, _, _, _, rfl, _, _, hshow, hdel⟩ := h
+      obtain ⟨it, t, vs, ts0, _, _, _, rfl, _, _, hshow, _, hdel⟩ := h
       simp only [encodeField, hshow]
       rcases hdel with hd | ⟨d, hd, _⟩
       · simp [hd]
